@@ -308,3 +308,12 @@ Proof.
   - repeat constructor; intros v H; vm_compute in H; congruence.
 Qed.
 Print Assumptions C15_example.
+
+(* GLUE to C14 (Proofs/Glue_quote.v, docs/Glue.md): the percent-encoder of this file is C14's - identical with the
+   tilde flag on (today's tables), identical on every query without a tilde otherwise; its round trip is an instance
+   of the single round-trip theorem over Codec.quote_byte (Glue_quote_round_trip_single_source in Props/Glue.v). *)
+From PV Require Proofs.Glue_quote.
+Theorem C15_urlencode_is_C14_urlencode :
+  forall ts ps, ts = true \/ Forall no_tilde_pair ps -> urlencode_g ts ps = urlencode ps.
+Proof. exact Glue_quote.urlencode_g_is_codec_urlencode. Qed.
+Print Assumptions C15_urlencode_is_C14_urlencode.
